@@ -17,7 +17,7 @@ ASSUMPTIONS = [
     'load accepted the dataset (C10/C11 check load itself)',
     'stretches are derived from water_level_staging: a source step larger than the smallest step is a gap',
 ]
-SIZES = {'quick': dict(n=1400, cli=120, sub=4, field=0), 'thorough': dict(n=48000, cli=2400, sub=48, field=48)}
+SIZES = {'quick': dict(n=3200, cli=160, sub=4, field=0), 'thorough': dict(n=48000, cli=2400, sub=48, field=48)}
 REQUIRED = {
     tier: {
         'classifications-completed': 100,
